@@ -8,7 +8,7 @@ use checks::bridge::Bridge;
 use checks::khconv::*;
 use checks::linkconv::*;
 use vcore::refmat::RMat;
-use vcore::reflink::{khovanov, Diagram, Module};
+use vcore::reflink::{braid_closure, khovanov, Diagram, Module};
 use vcore::refnum::*;
 use vcore::{catch, json, Run};
 use yui::poly::{Mono, Poly, Poly2};
@@ -220,9 +220,14 @@ where
         // d∘d = 0 with reference polynomial arithmetic
         if let Some((m2, _, e2)) = dm.get(&(i + 1)) {
             let mut prod: BTreeMap<(usize, usize), RP<K::Ref>> = BTreeMap::new();
+            // entries of d[i] by row (= column index of d[i+1])
+            let mut by_row: BTreeMap<usize, Vec<(usize, &RP<K::Ref>)>> = BTreeMap::new();
+            for (&(k1, c1), p1) in e {
+                by_row.entry(k1).or_default().push((c1, p1));
+            }
             for (&(r2, k2), p2) in e2 {
-                for (&(k1, c1), p1) in e {
-                    if k1 == k2 {
+                if let Some(row) = by_row.get(&k2) {
+                    for &(c1, p1) in row {
                         rp_mul_acc(prod.entry((r2, c1)).or_default(), p2, p1);
                     }
                 }
@@ -344,7 +349,32 @@ fn main() {
             check::<Poly2<'H', 'T', i64>, i64>(&run, &name, d, false, &[(0, 1), (2, 1)], false);
         });
     }
+    // ---- diagrams with more than 32 crossings --------------------------------------------------------------
+    // closures of the 3-braids (s1 s2)^q with 34..40 crossings (thorough up to 60): the
+    // crossing-state words leave the low 32 bits (seed `C05-connect-edges-sign-from-low-32-bits`: the sign
+    // (-1)^|state| computed from a 32-bit parity); d∘d = 0, shapes, degrees and homogeneity over Z and Z[H,T]
+    {
+        // (only the positive words: the closures of (s1 s2^-1)^q are alternating links whose homology
+        //  grows exponentially with q - the library itself needs minutes for q = 18)
+        let qs: Vec<(usize, bool)> = if th { vec![(17, false), (18, false), (20, false), (21, false), (25, false), (30, false)] } else { vec![(17, false), (18, false), (20, false)] };
+        run.add("big_diagrams", qs.len() as u64);
+        run.par_for(qs.len(), |i| {
+            if run.over_budget() {
+                run.cap("wall budget reached (big diagrams)");
+                return;
+            }
+            let (q, alt) = qs[i];
+            let w: Vec<i32> = (0..q).flat_map(|_| if alt { [1, -2] } else { [1, 2] }).collect();
+            let Some(d) = braid_closure(3, &w) else { return };
+            let name = format!("big:3-braid:({}1,{}2)^{q}", "s", if alt { "-s" } else { "s" });
+            // (no specialisation here: the reference Smith forms of the evaluated 40-crossing complexes
+            //  take minutes; d∘d = 0, shapes, degrees and homogeneity are exact and cheap)
+            check::<i64, i64>(&run, &name, &d, false, &[], false);
+            check::<Poly2<'H', 'T', i64>, i64>(&run, &name, &d, false, &[], false);
+        });
+    }
     let coverage = json!({
+        "diagrams_with_more_than_32_crossings": run.get("big_diagrams"),
         "table_links_beyond_the_cube": run.get("table_links"),
         "evaluations": run.get("evaluations"),
         "distinct_nontrivial": run.get("complexes"),
